@@ -160,6 +160,42 @@ def _check(v, with_ignored):
                     "vector": v, "expected": v["runs"], "observed": o})
     else:
         back = {"G": G, "runs": o[1], "res": v["res"], "bool": v["bool"], "vector": v}   # decided by TLC (Trace_C09) in run()
+    if tree[0] == "A" and bg:
+        # the same intervals handed over in another order and with an empty interval among them: the same pile-up, the mask = pile-up > 0
+        def unsorted():
+            import bionumpy as bnp
+            order = list(range(len(bg)))[::-1]
+            ch2 = [chrom[k] for k in order] + [chrom[0]]
+            st2 = np.concatenate([st[order], [st[0]]])
+            en2 = np.concatenate([en[order], [st[0]]])
+            gi = g.get_intervals(Interval(ch2, st2, en2))
+            return dense(gi.get_pileup()), dense(gi.get_mask()), int(gi.get_mask().sum())
+        o = outcome(unsorted)
+        n += 1
+        wantm = [[x > 0 for x in row] for row in v["B"]]
+        if o != ("ok", (v["B"], wantm, sum(sum(r) for r in wantm))):
+            bad.append({"what": "pile-up / mask of the same intervals in another order, with an empty interval among them, differ from the dense arrays",
+                        "tags": dict(tags, step="unsorted-with-empty"), "vector": v, "expected": [v["B"], wantm], "observed": str(o)[:400]})
+        # a boolean array over a STREAM of bedGraph chunks converted back: the records of its True runs
+        def streamed_bool():
+            import bionumpy as bnp
+            from bionumpy.streams import NpDataclassStream
+            chunks = [BedGraph(chrom[k:k + 1], st[k:k + 1], en[k:k + 1], vals[k:k + 1]) for k in range(len(bg))]
+            T = g.get_track(NpDataclassStream(iter(chunks), dataclass=BedGraph))
+            d = bnp.compute((T > 1).get_data())
+            cov = [[False] * G[c] for c in range(len(G))]
+            has_value = hasattr(d, "value")
+            for c, a, b in zip(d.chromosome.tolist(), d.start.tolist(), d.stop.tolist()):
+                for p in range(int(a), int(b)):
+                    cov[names.index(c)][p] = True
+            return cov, has_value
+        if with_ignored is False:
+            o = outcome(streamed_bool)
+            n += 1
+            wantb = [[x > 1 for x in row] for row in v["A"]]
+            if o != ("ok", (wantb, False)):
+                bad.append({"what": "a boolean array over a stream, converted back, is not the intervals of its True runs",
+                            "tags": dict(tags, step="streamed-bool-get_data"), "vector": v, "expected": wantb, "observed": str(o)[:400]})
     # float-valued and boolean tracks are lossless too (identity tree only)
     if tree[0] == "A" and bg:
         for kind, vv, want in (("float", vals * 0.5, [[x * 0.5 for x in row] for row in v["A"]]),
